@@ -518,6 +518,89 @@ def keplernum_case(kind, K):
                      "stop, and does not raise")
 
 
+def keplernum_late_start_case():
+    """KeplerNum._iter for a range that starts *after* the epoch, with an output step different from the integration step:
+    whatever leg is being integrated (epoch -> start, then start -> stop), the integrator is asked for steps of its own length h
+    (the output step only re-samples), and the dates yielded are start + k * output step"""
+    K = 4
+    ins = c03.EOP_IN + [("d", "int"), ("s", "real"), ("h", "pos"), ("off", "pos"), ("span", "pos"), ("step", "pos")]
+
+    def pre(v):
+        return c03.eop_pre(v) + [v["d"] >= 41317, v["d"] <= 58000, v["s"] >= 0, v["s"] < 86400, v["off"] <= 2 * v["h"],
+                                 v["span"] >= 2 * v["h"], v["span"] < K * v["h"], v["span"] < K * v["step"], v["step"] < 3 * v["h"]]
+
+    def run(env, v):
+        m = c03.datemod(env)
+        c03.install_eop(env, m, v)
+        try:
+            if not env.symbolic:
+                kn = importlib.import_module("beyond.propagators.keplernum")
+                from beyond.orbits import Orbit
+                from beyond.env.solarsystem import get_body
+                epoch = c03.mk_date(env, m, 58000, 0.0, "UTC")
+                asked = []
+                prop = kn.KeplerNum(_td(seconds=60.0), get_body("Earth"))
+                real = prop._make_step
+                prop._make_step = lambda orb, step: (asked.append(abs(step.total_seconds())) or real(orb, step))
+                prop.copy = lambda: prop
+                orb = Orbit([7e6, 0, 0, 0, 7.5e3, 0], epoch, "cartesian", "EME2000", prop)
+                got = list(orb.iter(start=epoch + _td(seconds=90.0), stop=epoch + _td(seconds=90.0 + 1000.0), step=_td(seconds=170.0)))
+                return {"every_step_asked_is_h": Holds(all(abs(a - 60.0) < 1e-9 for a in asked)),
+                        "first": float(v["off"]) * (got[0].date - epoch).total_seconds() / 90.0}
+            kn = env.mod("beyond.propagators.keplernum")
+            base = env.mod("beyond.propagators.base")
+            eph = env.mod("beyond.orbits.ephem")
+            base.timedelta = STD
+            eph.timedelta = STD
+            kn.sign = lambda x: (1 if bool(R.lift(x) >= 0) else -1)
+            td = lambda x: STD.of(x)
+            epoch = c03.mk_date(env, m, v["d"], v["s"], "UTC")
+
+            class Sv(Rec):
+                def as_orbit(self, prop):
+                    return self
+
+                def copy(self):
+                    return Sv(self.date)
+            prop = kn.KeplerNum.__new__(kn.KeplerNum)
+            prop.step = td(v["h"])
+            prop.bodies, prop.method, prop.frame, prop.tol = [], "euler", "EME2000", None
+            prop._orbit = Sv(epoch)
+            asked = []
+
+            def make_step(orb, step):
+                asked.append(abs(step.total_seconds().r))
+                return step, Sv(orb.date + step)
+            prop._make_step = make_step
+            prop.copy = lambda: prop
+
+            def interp(self, date):
+                return Sv(date)
+            saved = (eph.Ephem.interpolate, eph.Ephem.DEFAULT_ORDER)
+            eph.Ephem.interpolate = interp
+            eph.Ephem.DEFAULT_ORDER = 3
+            try:
+                start = epoch + td(v["off"])
+                gen = prop.iter(start=start, stop=start + td(v["span"]), step=td(v["step"]))
+                first = next(gen)
+                worst_hi, worst_lo = asked[0], asked[0]
+                ok = SB(z3.BoolVal(True))
+                for a in asked:
+                    ok = ok & (a == v["h"])
+                return {"every_step_asked_is_h": Holds(ok), "first": tsec(env, first.date, epoch)}
+            finally:
+                eph.Ephem.interpolate, eph.Ephem.DEFAULT_ORDER = saved
+        finally:
+            if not env.symbolic:
+                c03.restore_eop()
+
+    def ref(env, v, out):
+        return {"every_step_asked_is_h": None, "first": v["off"]}
+    return Case("keplernum/late_start", ins, run, ref, pre=pre, timeout=90, maxpaths=400, tol=1e-9, abs_tol=3e-6,
+                desc="KeplerNum iteration starting after the epoch with an output step other than the integration step: every step "
+                     "asked of the integrator has the integration step's length, the first date yielded is the requested start")
+
+
 def numiter_args_case(stop_kind):
     """NumericalPropagator.iter: what the range arguments mean before they reach _iter -- a timedelta `stop` is counted from
     `start` (not from the epoch of the orbit), start=None means the epoch, the step is turned round for a backward range"""
@@ -677,7 +760,7 @@ def all_cases(tier):
     cs += [dates_case(), ephem_case("step", K), ephem_case("nostep", K), ephem_case("dates", K), ephem_strict_case(), ephem_bwd_case(K), ephem_interleaved_case(),
            keplernum_case("fwd_long", bounds(tier)["keplernum_steps"]), keplernum_case("fwd_short", bounds(tier)["keplernum_steps"]),
            keplernum_case("bwd", bounds(tier)["keplernum_steps"]), keplernum_case("dates_list", bounds(tier)["keplernum_steps"]),
-           keplernum_case("dates_unordered", bounds(tier)["keplernum_steps"]), keplernum_case("adaptive", bounds(tier)["keplernum_steps"]),
+           keplernum_case("dates_unordered", bounds(tier)["keplernum_steps"]), keplernum_late_start_case(), keplernum_case("adaptive", bounds(tier)["keplernum_steps"]),
            numiter_args_case("timedelta"), numiter_args_case("date"), none_case()]
     return cs
 
